@@ -135,3 +135,19 @@ class Logger:
         self.msgs.append(str(m))
 
     warning = error = debug = info
+
+
+def frame_builder():
+    """how compute_batch_ranking turns the parsed rows of a mini-batch into a frame - the expression is read from the working tree, so a
+    harness that feeds the statistics functions directly builds its frames exactly as the pipeline does"""
+    import ast
+    import pandas as pd
+    from vlib import loader
+    src = open(loader.repo_path('outrank/core_ranking.py')).read()
+    for fn in ast.walk(ast.parse(src)):
+        if isinstance(fn, ast.FunctionDef) and fn.name == 'compute_batch_ranking':
+            for st in fn.body:
+                if isinstance(st, ast.Assign) and isinstance(st.targets[0], ast.Name) and st.targets[0].id == 'input_dataframe' and isinstance(st.value, ast.Call):
+                    code = compile(ast.Expression(st.value), '<frame construction>', 'eval')
+                    return lambda rows, cols: eval(code, {'pd': pd, 'line_tmp_storage': rows, 'column_descriptions': cols})
+    return lambda rows, cols: pd.DataFrame(rows, columns=cols)
